@@ -93,7 +93,7 @@ func ExpectedVal(b *Bucket, id int64, name string) (interface{}, bool) {
 	idc := b.idCol()
 	for j, c := range b.Cols {
 		if c.Name == name {
-			return ColVal(id, j, c.Typ, j == idc), true
+			return bucketColVal(b, id, j, idc), true
 		}
 	}
 	return nil, false
@@ -119,17 +119,30 @@ func RowID(b *Bucket, r *OutRow) (int64, error) {
 		if !ok {
 			return id, fmt.Errorf("unexpected column %q", n)
 		}
-		if exp != r.Vals[i] {
+		if exp != normVal(r.Vals[i], exp) {
 			return id, fmt.Errorf("column %s of row id=%d is %v (%T), expected %v (%T): torn or mixed row", n, id, r.Vals[i], r.Vals[i], exp, exp)
 		}
 	}
 	return id, nil
 }
 
+// normVal maps a returned value to the Go type the harness uses for the
+// column: marketstore's "i1" element type (BYTE) is read back as a uint8 with
+// the same bits, which is not a difference in value.
+func normVal(got, exp interface{}) interface{} {
+	if _, ok := exp.(int8); ok {
+		if u, ok := got.(uint8); ok {
+			return int8(u)
+		}
+	}
+	return got
+}
+
 // Mismatch describes a divergence between model and observed rows.
 type Mismatch struct {
 	Class  string // e.g. "missing", "extra", "wrong-value", "order", "dup", "time", "row-corrupt"
 	Detail string
+	T      int64 // the interval / record time the mismatch is about (0 if none)
 }
 
 func (m *Mismatch) Error() string { return m.Class + ": " + m.Detail }
@@ -141,11 +154,14 @@ func VarTimeOK(written, got int64, tf time.Duration) bool {
 	if got > written {
 		return false
 	}
+	// returned timestamps are whole nanoseconds: the stored value x satisfies
+	// written - tf/2^32 < x <= written and is rounded to the nearest nanosecond,
+	// hence d < tf/2^32 + 0.5, compared exactly as d*2^32 < tf + 2^31.
 	d := written - got
-	if d > int64(tf)>>32 {
+	if d > int64(tf)>>32+1 {
 		return false
 	}
-	if d<<32 >= int64(tf) {
+	if d<<32 >= int64(tf)+(1<<31) {
 		return false
 	}
 	return IntervalStart(written, tf) == IntervalStart(got, tf)
@@ -165,30 +181,31 @@ func CompareAll(mb *MBucket, rows []OutRow) *Mismatch {
 			r := &rows[i]
 			id, err := RowID(b, r)
 			if err != nil {
-				return &Mismatch{"row-corrupt", fmt.Sprintf("t=%s: %v", ts(r.T), err)}
+				return &Mismatch{"row-corrupt", fmt.Sprintf("t=%s: %v", ts(r.T), err), r.T}
 			}
 			if i > 0 && r.T <= prev {
-				return &Mismatch{"order", fmt.Sprintf("row %d t=%s not after previous %s", i, ts(r.T), ts(prev))}
+				return &Mismatch{"order", fmt.Sprintf("row %d t=%s not after previous %s", i, ts(r.T), ts(prev)), r.T}
 			}
 			prev = r.T
 			if _, dup := got[r.T]; dup {
-				return &Mismatch{"dup", fmt.Sprintf("interval %s returned twice", ts(r.T))}
+				return &Mismatch{"dup", fmt.Sprintf("interval %s returned twice", ts(r.T)), r.T}
 			}
 			got[r.T] = id
 		}
 		for _, e := range exp {
 			id, ok := got[e.T]
 			if !ok {
-				return &Mismatch{"missing", fmt.Sprintf("interval %s (id %d) not returned", ts(e.T), e.ID)}
+				return &Mismatch{"missing", fmt.Sprintf("interval %s (id %d) not returned", ts(e.T), e.ID), e.T}
 			}
 			if id != e.ID {
-				return &Mismatch{"wrong-value", fmt.Sprintf("interval %s holds id %d, expected id %d (last write)", ts(e.T), id, e.ID)}
+				return &Mismatch{"wrong-value", fmt.Sprintf("interval %s holds id %d, expected id %d (last write)", ts(e.T), id, e.ID), e.T}
 			}
 		}
 		if len(got) != len(exp) {
-			for t, id := range got {
+			for i := range rows {
+				t := rows[i].T
 				if _, ok := mb.Fixed[t]; !ok {
-					return &Mismatch{"extra", fmt.Sprintf("row at %s (id %d) was never written", ts(t), id)}
+					return &Mismatch{"extra", fmt.Sprintf("row at %s (id %d) was never written", ts(t), got[t]), t}
 				}
 			}
 		}
@@ -205,19 +222,19 @@ func CompareAll(mb *MBucket, rows []OutRow) *Mismatch {
 		r := &rows[i]
 		id, err := RowID(b, r)
 		if err != nil {
-			return &Mismatch{"row-corrupt", fmt.Sprintf("t=%s: %v", ts(r.T), err)}
+			return &Mismatch{"row-corrupt", fmt.Sprintf("t=%s: %v", ts(r.T), err), r.T}
 		}
 		if i > 0 && r.T < prev {
-			return &Mismatch{"order", fmt.Sprintf("row %d t=%s before previous %s", i, ts(r.T), ts(prev))}
+			return &Mismatch{"order", fmt.Sprintf("row %d t=%s before previous %s", i, ts(r.T), ts(prev)), r.T}
 		}
 		prev = r.T
 		w, ok := want[id]
 		if !ok {
-			return &Mismatch{"extra", fmt.Sprintf("record id %d at %s was never written", id, ts(r.T))}
+			return &Mismatch{"extra", fmt.Sprintf("record id %d at %s was never written", id, ts(r.T)), r.T}
 		}
 		seen[id]++
 		if seen[id] > len(w) {
-			return &Mismatch{"dup", fmt.Sprintf("record id %d returned %d times, written %d times", id, seen[id], len(w))}
+			return &Mismatch{"dup", fmt.Sprintf("record id %d returned %d times, written %d times", id, seen[id], len(w)), r.T}
 		}
 		okT := false
 		for _, wt := range w {
@@ -226,12 +243,12 @@ func CompareAll(mb *MBucket, rows []OutRow) *Mismatch {
 			}
 		}
 		if !okT {
-			return &Mismatch{"time", fmt.Sprintf("record id %d returned at %s, written at %s (tf %s)", id, ts(r.T), ts(w[0]), b.TF)}
+			return &Mismatch{"time", fmt.Sprintf("record id %d returned at %s, written at %s (tf %s)", id, ts(r.T), ts(w[0]), b.TF), w[0]}
 		}
 	}
-	for id, w := range want {
-		if seen[id] < len(w) {
-			return &Mismatch{"missing", fmt.Sprintf("record id %d written at %s returned %d times, written %d times", id, ts(w[0]), seen[id], len(w))}
+	for _, e := range exp {
+		if w := want[e.ID]; seen[e.ID] < len(w) {
+			return &Mismatch{"missing", fmt.Sprintf("record id %d written at %s returned %d times, written %d times", e.ID, ts(w[0]), seen[e.ID], len(w)), w[0]}
 		}
 	}
 	return nil
